@@ -534,12 +534,28 @@ let handle (r : reader) : unit =
            out_s ("OK " ^ (match lf with LSNuniq -> "s-cells" | LSRange -> "s-ranges" | LTRange -> "t-ranges" | LFRange -> "f-ranges"
                                          | LSTRange -> "st-v2" | LST29 -> "st-prev2"));
            out_n w; out_n d1; out_n d2;
-           (match dt with DRanges l -> out_ranges l | DCells l -> out_ranges l | DSt -> ())
+           (match dt with DRanges l -> out_ranges l | DCells l -> out_ranges l
+                       | DSt x -> out_int (List.length x); List.iter (fun (t, sp) -> out_ranges t; out_ranges sp) x | DSt29 -> ())
        | FErr e -> out_s ("ERR " ^ (match e with
            | FIo -> "Io" | FUnexpectedKeyword -> "UnexpectedKeyword" | FValueIndicatorNotFound -> "ValueIndicatorNotFound"
            | FUnexpectedValue -> "UnexpectedValue" | FUintValueNotFound -> "UintValueNotFound" | FStringValueNotFound -> "StringValueNotFound"
            | FWrongUintValue -> "WrongUintValue" | FMissingKeyword -> "MissingKeyword" | FUncompatibleKeywordContent -> "UncompatibleKeywordContent"
            | FUnexpectedDepth -> "UnexpectedDepth" | FCustom -> "Custom" | FFuel -> "FUEL-EXHAUSTED")))
+  | "FITSW2" ->
+      (* FITSW2 w dt ds n (tranges sranges)* -> the whole file rangemoc2d_to_fits_ivoa writes *)
+      let w = next_n r in
+      let dt = next_n r in
+      let ds = next_n r in
+      let x = next_list r (fun r -> let t = next_ranges r in let sp = next_ranges r in (t, sp)) in
+      out_s "OK"; out_hex (fits_write_st w dt ds x)
+  | "FITSWN" ->
+      (* FITSWN w d ranges -> the whole file hpx_cells_to_fits_ivoa writes for the cells() view *)
+      let w = next_n r in
+      let d = next_n r in
+      let l = next_ranges r in
+      (match moc_cells_o Hpx w d l with
+       | Some cells -> out_s "OK"; out_hex (fits_write_nuniq w d cells)
+       | None -> out_s "ERR cells-fuel")
   | "HIST" -> handle_hist r
   | "MSET" -> handle_mset r
   | "TEXTV" ->
